@@ -49,7 +49,7 @@ Definition sx_outcome (wrap : forest -> forest) (o : outcome forest) : sx :=
 Definition sx_log (o : outcome forest) (l : list nat) : sx :=
   match o with Ok _ => sx_ids l | _ => L [A (-1)] end.
 
-Definition run08 (c : case08) : sx :=
+Definition run08_phase (c : case08) : sx :=
   let f := fst (fst (fst c)) in
   let m := snd (fst (fst c)) in
   let mk := remake (snd c) in
@@ -87,3 +87,7 @@ Definition run08 (c : case08) : sx :=
                  sx_err (api_filtered mk None g 2); sx_err (api_filter None g)] ]
       end
   end.
+
+(* one case of the correspondence = the phases of one history (one process, one predicate object): each phase
+   is a pure function of the tree as it is when the phase starts and of the answers the predicate gives then *)
+Definition run08 (cs : list case08) : sx := L (map run08_phase cs).
